@@ -572,9 +572,9 @@ def fromMetaValidate (declIdentSpan : Span) (style? : Option Style) (nFields : N
          words.map (fun w => (Err.custom "`#[darling(word)]` can only be applied to one variant").withSpan (w.2.getD default))
        else [])
 
-/-- the first variant with `word = true` -/
+/-- the first non-skipped variant with `word = true` (a skipped variant is never produced) -/
 def wordVariant (vs : List RVariant) : Option String :=
-  (vs.find? (fun v => match v.word with | some (b, _) => b | none => false)).map (·.ident)
+  (vs.find? (fun v => !v.skip && (match v.word with | some (b, _) => b | none => false))).map (·.ident)
 
 structure DeclSpans where
   ident : Span := default
